@@ -18,6 +18,9 @@ if args and args[0] == "-j":
 def run(d):
     f = d.rsplit("-", 1)[0]
     W = "/tmp/mw/B_%s" % f
+    if f.endswith("b"):          # second round: benign/<file>b-<n>, worktree /tmp/mw/B2_<file>
+        f = f[:-1]
+        W = "/tmp/mw/B2_%s" % f
     sd = os.path.join(V, "benign", d)
     am = json.load(open(os.path.join(sd, "agent_meta.json")))
     res = {}
